@@ -222,6 +222,12 @@ class _ReplayRNG:
         r = xs * scale + loc
         return r if size is not None else r[0]
 
+    def standard_normal(self, size=None, dtype=None, out=None):
+        if out is not None:
+            out[...] = self.normal(size=out.size).reshape(out.shape)
+            return out
+        return self.normal(size=size)
+
 
 class RealWorld(BaseWorld):
     """concrete twin: real modules, real numpy/pandas/netCDF4, values from a solver model"""
